@@ -32,7 +32,7 @@ ASSUMPTIONS = [
     "at most two injected frames / one duplicated request / one early timer per history (thorough: 2/1/1)",
 ]
 BOUNDS = {
-    "quick": "2-3 concurrent requests, 1-2 clients, 1-2 servers, <=1 injection (all 6 reply types x 3 sources x 4 ID classes), <=1 duplicate, depth<=14",
+    "quick": "2-3 concurrent requests, 1-2 clients, 1-2 servers, <=1 injection (all 6 reply types x 3 sources x 4 ID classes), <=1 duplicate, depth<=14 (11 with early timers)",
     "thorough": "3 requests over 2 servers with <=2 injections, depth<=18; 4 requests without injections",
 }
 
@@ -224,7 +224,8 @@ def run(tier, seed, deadline):
             break
         sub_deadline = min(deadline, time.time() + (deadline - time.time()) / (len(cfgs) - i) * 1.5)
         s0 = MultiSystem(cfg)
-        bfs(e2_expand, cfg.to_json(), (), h64(s0.canon_state()), depth, sub_deadline, acc,
+        d = depth - 3 if "timers" in (cfg.label or "") else depth      # timer branches multiply the late levels
+        bfs(e2_expand, cfg.to_json(), (), h64(s0.canon_state()), d, sub_deadline, acc,
             max_states=400000 if tier != "quick" else 120000, label="E2 %s" % cfg.label)
     s = MultiSystem.replay(c0, ("submit", "submit", "deliver1", "answer2.0", "inject:0:2:Abort:1", "deliver0"))
     acc.sample({"cfg": c0.describe(), "history": s.history, "outcome": {str(k): v for k, v in s.outcome.items()},
